@@ -82,9 +82,9 @@ def parse_call_line(line: str) -> gen_ctx.Ctx:
             ctx.scope[k] = int(v)
     for it in f[4:]:
         g = it.split("|")
-        if g[0] in ("D", "AL"):
+        if g[0] in ("D", "AL", "VA", "VK"):
             continue
-        if g[0] == "P":
+        if g[0] in ("P", "PD"):
             name, mode, specs, val = g[1], g[2], g[3], g[4]
         else:
             name, mode, specs, val = "return", g[1], g[2], g[3]
